@@ -16,6 +16,10 @@ type Ev map[string]any
 
 var seq int64
 
+// BaseMs is the time base of the scenario being replayed (the absolute time of its tick 0, set by the runner before
+// a scenario starts): every time that goes into a trace is reported relative to it.
+var BaseMs int64
+
 // NextSeq returns the next global sequence number.
 func NextSeq() int64 { return atomic.AddInt64(&seq, 1) }
 
